@@ -60,7 +60,7 @@ func c07Workflow() string {
 
 func genC07(t *rapid.T) streamCase {
 	wn := c07Workflow()
-	targets := []string{"passcount", "passcount", "uniformity", "uniformity", "two-items", "mixed", "half", "random", "allpass"}
+	targets := []string{"passcount", "passcount", "uniformity", "uniformity", "two-items", "mixed", "half", "random", "allpass", "replayed"}
 	if wn == "period" {
 		targets = append(targets, "lfsr")
 	}
